@@ -3,7 +3,7 @@
 Decided statically: ownership / pairing / bounds clauses (see DESIGN §3 C18).
 Not decided: global memory safety and leak-freedom over histories.
 """
-from ..core import (AnalysisBroken, Inliner, canon, strip, strip_load, last_member, must_pass, relpath,
+from ..core import (names_of, same_value, AnalysisBroken, Inliner, canon, strip, strip_load, last_member, must_pass, relpath,
                     norm_cond, walk, forward, lvalue_steps, lvalue_root, evloc)
 from .. import generic
 from ..analyses import (is_call, holding, atoms_imply, atoms_reading, path_to, describe, exits_of,
